@@ -33,6 +33,10 @@ fn native_misc_registry() -> Vec<(&'static str, fn(&mut crate::src::EnumSrc))> {
         ("nschema_bitvec", (|s: &mut crate::src::EnumSrc| crate::native_misc::schema_bitvec(s)) as fn(&mut crate::src::EnumSrc)),
         // n(nnalgebra, "C01,C02,C04", "Serialize/Deserialize/Packed for nalgebra::Isometry3, Point3, Vector3; Vec / array bulk paths over them; derive for a repr(C) struct holding an Isometry3", "5 rotations (incl. ones whose quaternion norm is not exactly 1.0) x small-scope translations");
         ("nnalgebra", (|s: &mut crate::src::EnumSrc| crate::native_lib::nalgebra_types(s)) as fn(&mut crate::src::EnumSrc)),
+        // n(nold_format_files, "C02,C13", "Deserializer::load_impl (plain and bzip2 branch, library format 0); Deserialize for Schema and its parts at format 0; diff_schema", "one hand-built library-format-0 file with schema section, plain and bzip2-compressed");
+        ("nold_format_files", (|s: &mut crate::src::EnumSrc| crate::native_crypto::old_format_files(s)) as fn(&mut crate::src::EnumSrc)),
+        // n(ngate_versions_as, "C05", "derive WithSchema for fields with savefile_versions_as (schema at versions above the conversion range); Deserializer::load_impl schema gate; diff_schema", "2 definitions x 4 foreign layouts x small-scope values");
+        ("ngate_versions_as", (|s: &mut crate::src::EnumSrc| crate::native_crypto::gate_versions_as(s)) as fn(&mut crate::src::EnumSrc)),
         // n(ncrypto_stream, "C08,C01,C07,C14", "CryptoWriter::new; CryptoWriter::write; CryptoWriter::flush; Drop for CryptoWriter; CryptoReader::new; CryptoReader::read (real ring)", "payload lengths 0..230000 (around the 100000-byte chunk size), 4 write-piece sizes; inner reader chunk sizes 1..4096 x 5 Interrupted patterns x 4 read sizes; reader/writer failure at 7-9 offsets; short-writing inner writer; inner writer whose flush fails; stream cut at every chunk boundary");
         ("ncrypto_stream", (|s: &mut crate::src::EnumSrc| crate::native_crypto::crypto_stream(s)) as fn(&mut crate::src::EnumSrc)),
         // n(ncompressed_container, "C01,C07", "savefile::save_compressed; Serializer::save_impl (bzip2 branch); Deserializer::load_impl (bzip2 branch)", "small-scope documents; every cut for files <= 160 bytes, else 12 cut points");
